@@ -100,9 +100,9 @@ class IndexedAssembly(Assembly):
             j_ovr = j
 
         # Walk start and end pointers back to ignore Gaps on the ends
-        while isinstance(scffld.rows[i_ovr], Gap):
+        while i_ovr <= j_ovr and isinstance(scffld.rows[i_ovr], Gap):
             i_ovr += 1
-        while isinstance(scffld.rows[j_ovr], Gap):
+        while i_ovr <= j_ovr and isinstance(scffld.rows[j_ovr], Gap):
             j_ovr -= 1
         if not i_ovr <= j_ovr:
             return None
